@@ -296,11 +296,16 @@ Proof.
   destruct (x_flush (after_rotations x k)) eqn:F; try destruct H. rewrite (Ef _ _ eq_refl). exact H.
 Qed.
 
-Lemma safe_write w d k del v : Safe w -> Safe (fst (write_op w d k del v)).
+Lemma db_write_at_walid d k del v rot : w_id (d_wal (db_write_at d k del v rot)) = w_id (d_wal d).
+Proof. unfold db_write_at. destruct rot; reflexivity. Qed.
+Lemma db_write_at_tables d k del v rot : d_tables (db_write_at d k del v rot) = d_tables d.
+Proof. unfold db_write_at. destruct rot; reflexivity. Qed.
+
+Lemma safe_write w d k del v rot : Safe w -> Safe (fst (write_op w d k del v rot)).
 Proof.
   intro S. unfold write_op. destruct (get_db w d) as [x|] eqn:G; [|exact S].
   destruct (is_live x) eqn:L; [|exact S].
-  destruct (db_write (x_core x) k del v) as [c r] eqn:W. cbn [fst].
+  set (c := db_write_at (x_core x) k del v rot). set (r := rot). cbn [fst].
   replace (set_db w d (after_rotations (with_core x c) (if r then 1%nat else 0%nat)))
     with (set_db (set_fs w (g_fs w)) d (after_rotations (with_core x c) (if r then 1%nat else 0%nat))) by (destruct w; reflexivity).
   set (k0 := if r then 1%nat else 0%nat).
@@ -316,9 +321,9 @@ Proof.
     + rewrite Et. cbn. auto.
     + rewrite Eo. cbn. auto.
     + intros n H. left. apply rn_after_rotations in H. unfold rn in *. cbn in H.
-      assert (d_tables c = d_tables (x_core x)) as E by (pose proof (db_write_tables (x_core x) k del v) as T; rewrite W in T; exact T).
+      assert (d_tables c = d_tables (x_core x)) as E by apply db_write_at_tables.
       rewrite E in H. exact H.
-    + rewrite Ec. cbn. pose proof (db_write_walid (x_core x) k del v) as T. rewrite W in T. cbn in T. lia.
+    + rewrite Ec. cbn. pose proof (db_write_at_walid (x_core x) k del v rot) as T. fold c in T. lia.
 Qed.
 
 Lemma set_fs_id w : set_fs w (g_fs w) = w.
